@@ -83,6 +83,9 @@ class Side:
             if op["replace"]:
                 hd.update(op["content"]); hd.update({"x-amz-meta-" + a: b for a, b in op["meta"].items()}); hd["x-amz-metadata-directive"] = "REPLACE"
                 if op["tags"]: hd["x-amz-tagging"] = urllib.parse.urlencode(op["tags"]); hd["x-amz-tagging-directive"] = "REPLACE"
+            if op.get("tagdir"):
+                # the tagging directive on its own: REPLACE without a tag set leaves the copy without tags, COPY keeps the source's
+                hd["x-amz-tagging-directive"] = op["tagdir"]
             r = c.req("PUT", path, headers=hd)
             return res(r, etag=e2e.etag_clean(r.xml().findtext("ETag")) if r.status == 200 and r.xml() is not None and r.xml().tag != "Error" else None)
         if k == "list":
@@ -156,7 +159,9 @@ def gen_program(rnd, n_ops, pid):
         elif x < 0.47: ops.append({"op": "delete", "bucket": bk, "key": key})
         elif x < 0.55 and objs:
             (sb, sk) = rnd.choice(sorted(objs)); ops.append({"op": "copy", "bucket": bk, "key": key, "srcbucket": sb, "src": rnd.choice([sk, sk, "missing"]), "replace": rnd.random() < 0.5,
-                                                            "content": rnd.choice(CONTENT), "meta": rnd.choice(METAS), "tags": rnd.choice(TAGS)})
+                                                            "content": rnd.choice(CONTENT), "meta": rnd.choice(METAS), "tags": rnd.choice(TAGS), "tagdir": rnd.choice([None, None, "REPLACE", "COPY"])})
+            if ops[-1]["tagdir"] and ops[-1]["src"] != "missing":
+                ops.append({"op": "get", "bucket": bk, "key": key, "range": None})       # (the tag count of the copy is part of the answer)
         elif x < 0.67:
             q = rnd.choice([{"list-type": "2"}, {"list-type": "2", "prefix": "dir/"}, {"list-type": "2", "delimiter": "/"}, {"list-type": "2", "prefix": "dir", "delimiter": "/"},
                             {"list-type": "2", "max-keys": "2"}, {"list-type": "2", "start-after": "dir/b"}, {"list-type": "2", "max-keys": "0"}, {"list-type": "2", "fetch-owner": "true"},
@@ -335,6 +340,26 @@ def kept_data(chk, gwbin):
             R.req("DELETE", "/kept-u1", query={"policy": ""})
             check("policy deleted", pol("kept-u1"), (404, "NoSuchBucketPolicy"))
             check("acl other-bucket-owner", acl("kept-u2")[0], "u2")
+            # ---- the stored form of an ACL is cut into pieces for the endpoint: every length of it round-trips (grantee names of 3..200
+            # characters move the length of the stored form through every residue of the piece size)
+            made = cl("u2").req("PUT", "/kept-sweep").status
+            cl("u2").req("PUT", "/kept-sweep", query={"ownershipControls": ""}, body=b"<OwnershipControls><Rule><ObjectOwnership>BucketOwnerPreferred</ObjectOwnership></Rule></OwnershipControls>")
+            bad_l = []
+            lengths = list(range(3, 201)) if chk.tier != "quick" else list(range(3, 201, 1))
+            for L in lengths:
+                name = "g" + "x" * (L - 1)
+                rc_ = R.req("PATCH", "/create-user", body=("<Account><Access>%s</Access><Secret>s</Secret><Role>user</Role><UserID>0</UserID><GroupID>0</GroupID></Account>" % name).encode())
+                if rc_.status not in (200, 201):
+                    chk.count("acl-sweep:account-refused:%d" % rc_.status); continue
+                r = cl("u2").req("PUT", "/kept-sweep", query={"acl": ""}, headers={"x-amz-grant-read": name, "x-amz-grant-write-acp": "adm"})
+                got = acl("kept-sweep"); want = ("u2", sorted([("u2", "FULL_CONTROL"), (name, "READ"), ("adm", "WRITE_ACP")]))
+                chk.case(("kept", "acl-sweep", L), True); chk.traces += 1; chk.count("acl-sweep:%d" % r.status)
+                if r.status not in (200, 204) or got != want:
+                    bad_l.append({"grantee_name_length": L, "status": r.status, "code": r.code, "acl_read_back": str(got)[:200]})
+                R.req("PATCH", "/delete-user", query={"access": name})
+            if bad_l:
+                chk.fail("c18:kept:acl-of-some-length", "proxied bucket: PutBucketAcl with a grantee name of %s characters answers %d %s / reads back wrongly (other lengths work): the stored form of the ACL has a length the splitting into endpoint tags mishandles"
+                         % ([b_["grantee_name_length"] for b_ in bad_l][:8], bad_l[0]["status"], bad_l[0]["code"]), {"failing": bad_l[:6], "lengths_tried": "%d..%d" % (lengths[0], lengths[-1])})
             chk.tie("proxy gateway still running after the kept-data sequence", gp.alive(), gp.log_tail())
 
 
